@@ -839,6 +839,30 @@ func ReadVarlena(data []byte) ([]byte, int) {
 	if totalLen < 4 || len(data) < totalLen {
 		return nil, 4
 	}
+	// Compressed in line (VARATT_IS_4B_C: low header bits 10): the 4-byte va_tcinfo (raw size in the
+	// low 30 bits, method in the top 2: 0 pglz, 1 LZ4) and the stream follow the header.  The value is
+	// the decompressed data; a stream that does not yield exactly the recorded size is unreadable
+	// (nil), and the stored length is consumed either way so that the following columns stay aligned.
+	// The decompressors size their result from the stream, never from the raw-size field alone.
+	if header&0x03 == 0x02 && totalLen >= 8 {
+		tcinfo := u32(data, 4)
+		rawSize := int(tcinfo & 0x3FFFFFFF)
+		stream := data[8:totalLen]
+		var out []byte
+		var err error
+		switch tcinfo >> 30 {
+		case 0:
+			out, err = decompressPGLZ(stream, rawSize)
+		case 1:
+			out, err = decompressLZ4(stream, rawSize)
+		default:
+			return nil, totalLen
+		}
+		if err != nil || len(out) != rawSize {
+			return nil, totalLen
+		}
+		return out, totalLen
+	}
 	return data[4:totalLen], totalLen
 }
 
